@@ -466,6 +466,24 @@ def e_move_constructor(s, r):
     return ("move-constructor-to-another-type", "constructor")
 
 
+def e_replace_function(s, r):
+    """a function disappears (removed or renamed) while new, acceptable functions are added in the same edit: the count does not drop"""
+    if not s.functions:
+        return None
+    i = r.below(len(s.functions))
+    old = s.functions[i]
+    k = r.below(3)
+    if k == 0:
+        old.name = old.name + "Renamed"
+        return ("rename-function", "function")
+    s.functions.pop(i)
+    for _ in range(1 + r.below(2)):
+        f = Field("fields_mask", T("nat"))
+        f.role = "mask"
+        s.functions.append(Function("vz.zzRep%d" % r.below(100000), (r.next() & 0xffffffff) | 1, "read", [f], T("boxedprim", name="Int")))
+    return ("remove-function-and-add-new-ones", "function")
+
+
 def recursion_family(r):
     """mutually recursive types that forward one external field mask to each other; returns (old schema, new schema, kind):
     the new schema appends a field under a bit that the *other* type of the cycle already gives a meaning to"""
@@ -577,7 +595,7 @@ SAFE = [lambda s, r: e_append_masked_field(s, r), e_append_constructor, e_add_ty
 UNSAFE = [e_remove_constructor, e_remove_function, lambda s, r: e_remove_field(s, r, True), lambda s, r: e_remove_field(s, r, False), e_change_prim, e_change_prim, e_change_prim,
           e_change_mask_bit, e_change_mask_ref, e_add_mask, e_remove_mask, e_append_unmasked_field, lambda s, r: e_append_masked_field(s, r, True),
           lambda s, r: e_struct_to_union(s, r, True), e_remove_template_arg, e_repoint_mask_ref, e_repoint_size_ref,
-          lambda s, r: e_append_field_every_union_constructor(s, r, True), e_swap_nat_names, e_move_constructor]
+          lambda s, r: e_append_field_every_union_constructor(s, r, True), e_swap_nat_names, e_move_constructor, e_replace_function]
 
 
 def run_linter(ctx, pairs):
